@@ -76,6 +76,7 @@ SEQ_EXTRA = r'''
 static inline struct vf_seq_%(G)s vf_seq_%(G)s_make_n(size_t n) { struct vf_seq_%(G)s s; __CPROVER_assume(n <= VF_CAP); s.d = (%(T)s*)calloc(VF_CAP, sizeof(%(T)s)); __CPROVER_assume(s.d != 0); s.h = 0; s.n = n; s.cap = VF_CAP; return s; }
 static inline struct vf_seq_%(G)s vf_seq_%(G)s_make_fill(size_t n, %(T)s v) { struct vf_seq_%(G)s s = vf_seq_%(G)s_make(); __CPROVER_assume(n <= VF_CAP); for (size_t i = 0; i < VF_CAP; i++) { if (i < n) s.d[i] = v; } s.n = n; return s; }
 static inline void vf_seq_%(G)s_resize(struct vf_seq_%(G)s* s, size_t n) { __CPROVER_assume(s->h + n <= s->cap); for (size_t i = 0; i < VF_CAP; i++) { if (s->n + i < n) memset(&s->d[s->h + s->n + i], 0, sizeof(%(T)s)); } s->n = n; }
+static inline void vf_seq_%(G)s_assign_fill(struct vf_seq_%(G)s* s, size_t n, %(T)s v) { __CPROVER_assume(n <= s->cap && n <= VF_CAP); s->h = 0; for (size_t i = 0; i < VF_CAP; i++) { if (i < n) s->d[i] = v; } s->n = n; }
 static inline struct vf_seq_%(G)s vf_seq_%(G)s_copy(const struct vf_seq_%(G)s* o) { struct vf_seq_%(G)s s = vf_seq_%(G)s_make(); __CPROVER_assume(o->n <= VF_CAP); for (size_t i = 0; i < VF_CAP; i++) { if (i < o->n) s.d[i] = o->d[o->h + i]; } s.n = o->n; return s; }
 '''
 
